@@ -75,3 +75,11 @@ MUTANTS["C09"] = [
     ("scratch_shape_min", "lentil/propagate.py", "fft_shape, _ = _fft_shape(dx, du, z, np.max(wavelength), oversample)", "fft_shape, _ = _fft_shape(dx, du, z, np.min(wavelength), oversample)"),
     ("has_tilt_first_only", "lentil/propagate.py", "    for field in wavefront.data:\n        if field.tilt:\n            return True\n    return False", "    for field in wavefront.data:\n        return bool(field.tilt)\n    return False"),
 ]
+MUTANTS["C05"] = [
+    ("norm_abs_row", "lentil/fourier.py", "np.sqrt(np.abs(alpha_row * alpha_col))", "np.abs(alpha_row)"),
+    ("fft_backward_norm", "lentil/propagate.py", "np.fft.fft2(np.fft.ifftshift(x), norm='ortho')", "np.fft.fft2(np.fft.ifftshift(x), norm='backward')"),
+    ("intensity_real_sq", "lentil/field.py", "out[out_slice] += (np.abs(field.data[field_slice]**2) * weight)", "out[out_slice] += (np.real(field.data[field_slice])**2 * weight)"),
+    ("normalize_no_sqrt", "lentil/util.py", "return array * np.sqrt(power/np.sum(np.abs(array)**2))", "return array * (power/np.sum(np.abs(array)**2))"),
+    ("normalize_real_only", "lentil/util.py", "return array * np.sqrt(power/np.sum(np.abs(array)**2))", "return array * np.sqrt(power/np.sum(np.real(array)**2))"),
+    ("alpha_iso", "lentil/propagate.py", "    return ((dx[0]*du[0])/(wavelength*z*oversample),\n            (dx[1]*du[1])", "    return ((dx[0]*du[0])/(wavelength*z*oversample),\n            (dx[0]*du[0])"),
+]
